@@ -15,8 +15,13 @@ VARIABLE l
 Ev == Trace[l]
 TraceInit == l = 1 /\ Init
 
+(* variant "exthdr": the packet of an "ok" case with IPv6 extension headers in front of its transport header.     *)
+(* A router may or may not look behind them (the code as it is does not: such a packet matches no service);       *)
+(* the property only says when a packet may be handed on: if a service admits ITS protocol and ITS port.         *)
 InOK == /\ ~Ev.panic
-        /\ Ev.totun <=> InboundToTun(Ev.svcs, Ev.isolate, Ev.who, Ev.proto, Ev.dport, Ev.variant, Ev.flow, Ev.friends)
+        /\ IF Ev.variant = "exthdr"
+           THEN Ev.totun => InboundToTun(Ev.svcs, Ev.isolate, Ev.who, Ev.proto, Ev.dport, "ok", FALSE, Ev.friends)
+           ELSE Ev.totun <=> InboundToTun(Ev.svcs, Ev.isolate, Ev.who, Ev.proto, Ev.dport, Ev.variant, Ev.flow, Ev.friends)
 OutOK == Ev.tomesh <=> OutboundToMesh(Ev.isolate, Ev.srcisme, Ev.dst)
 PolicyOK == Ev.allowed <=> PolicyAdmits(Ev.svcs, Ev.proto, Ev.port, Ev.who, Ev.friends)
 
